@@ -3,6 +3,7 @@ package memberlist
 import "time"
 
 func init() {
+	vRegister("H_C07_DelegateWindow_RT", H_C07_DelegateWindow_RT)
 	vRegister("H_C07_Step", H_C07_Step)
 	vRegister("H_C07_TimerReset", H_C07_TimerReset)
 }
@@ -198,4 +199,67 @@ func H_C07_Sequence() {
 		vAssert(f.ev.unlocked == 0, "c07.seq.callbacks-under-node-lock")
 	}
 	vCover("c07.seq")
+}
+
+// C07 under concurrency: while the alive delegate is still vetting a claim about X (the delegate is slow), a
+// second first-contact claim about X, or a reaping pass that would remove X's long-dead record, is waiting on
+// another goroutine. Whatever the order in which the two finish, the event log and the table agree: X is
+// listed at most once, joined at most once without a leave in between, and every record in the node list is
+// the one the name index points at. (Real time: goroutines parked on the node lock cannot be replayed under
+// synctest.)
+func H_C07_DelegateWindow_RT() {
+	conf := vBaseConfig()
+	conf.GossipToTheDeadTime = time.Second
+	f := vNewML(conf)
+	m := f.m
+	f.alive = &vAliveRec{}
+	conf.Alive = f.alive
+	f.vAddSelf(5, nil)
+	scenario := vPick(2)
+	if scenario == 1 {
+		d := f.vAddConcreteAlive(vPeerA, 2) // last change an hour ago: reapable
+		d.State = StateDead
+		d.Incarnation = 3
+	}
+	release := make(chan struct{})
+	f.alive.onNotify = func() { <-release } // the delegate is slow: it returns only when the harness lets it
+	done := 0
+	a1 := alive{Incarnation: 7, Node: vPeerA, Addr: []byte{10, 0, 0, 2}, Port: 7946, Vsn: []uint8{1, 5, 2, 0, 0, 0}}
+	a2 := alive{Incarnation: 7 + uint32(vPick(2)), Node: vPeerA, Addr: []byte{10, 0, 0, 2}, Port: 7946, Vsn: []uint8{1, 5, 2, 0, 0, 0}}
+	go func() { m.aliveNode(&a1, nil, false); done++ }()
+	vYield() // the first claim is now inside the delegate
+	go func() {
+		if scenario == 0 {
+			m.aliveNode(&a2, nil, false)
+		} else {
+			m.resetNodes()
+		}
+		done++
+	}()
+	vYield() // the second goroutine has run as far as it can
+	close(release)
+	for i := 0; i < 6 && done < 2; i++ {
+		vYield()
+	}
+	vAssert(done == 2, "c07.window.both-finish")
+	listed := 0
+	for _, n := range m.nodes {
+		vAssert(m.nodeMap[n.Name] == n, "c07.window.node-list-matches-index")
+		if n.Name == vPeerA {
+			listed++
+		}
+	}
+	vAssert(listed <= 1 && len(m.nodes) == len(m.nodeMap), "c07.window.listed-at-most-once")
+	joins, leaves := 0, 0
+	for _, e := range f.ev.log {
+		if e.name == vPeerA && e.kind == 1 {
+			joins++
+			vAssert(joins-leaves == 1, "c07.window.no-join-without-intervening-leave")
+		}
+		if e.name == vPeerA && e.kind == 2 {
+			leaves++
+		}
+	}
+	vAssert((joins-leaves == 1) == f.vIsMember(vPeerA), "c07.window.event-log-equals-members")
+	vCover("c07.window")
 }
